@@ -153,9 +153,36 @@ public:
             }
             p.ops.append(mkop(QStringLiteral("pump"), {}, {}, (quint32)r.next()));
         }
+        {
+            // biased scenario (own stream, so the other draws of a seed stay what they were): a client object that already had a
+            // session (keep-alive timers armed once) connects again and meets a server that offers STARTTLS and then says
+            // nothing more, for longer than the keep-alive interval: whatever timer fires must not write a stanza in clear
+            Prng ri(derive(seed, "c04idle"));
+            if (ri.chance(0.1)) {
+                p.ops.append(mkop(QStringLiteral("until"), { 2, 0 }, {}, (quint32)ri.next()));
+                p.ops.append(mkop(QStringLiteral("prof"), {}, { QStringLiteral("mute"), QStringLiteral("1") }, (quint32)ri.next()));
+                p.ops.append(mkop(ri.chance(0.5) ? QStringLiteral("cut") : QStringLiteral("sclose"), {}, {}, (quint32)ri.next()));
+                p.ops.append(mkop(QStringLiteral("pump"), {}, {}, (quint32)ri.next()));
+                p.ops.append(mkop(QStringLiteral("connect"), {}, {}, (quint32)ri.next()));
+                p.ops.append(mkop(QStringLiteral("connok"), {}, {}, (quint32)ri.next()));
+                p.ops.append(mkop(QStringLiteral("pump"), {}, {}, (quint32)ri.next()));
+                p.ops.append(mkop(QStringLiteral("inj"), { 16 }, {}, (quint32)ri.next()));
+                p.ops.append(mkop(QStringLiteral("inj"), { (qint64)ri.pick(QVector<int> { 0, 1, 20 }) }, {}, (quint32)ri.next()));
+                p.ops.append(mkop(QStringLiteral("pump"), {}, {}, (quint32)ri.next()));
+                const int nt = (int)ri.range(1, 4);
+                for (int i = 0; i < nt; ++i) {
+                    p.ops.append(mkop(QStringLiteral("timer"), { 120000 }, {}, (quint32)ri.next()));
+                    p.ops.append(mkop(QStringLiteral("pump"), {}, {}, (quint32)ri.next()));
+                }
+            }
+        }
         const int n = (int)r.range(2, tier == QLatin1String("thorough") ? 20 : 12);
         for (int i = 0; i < n; ++i) {
             quint32 salt = (quint32)r.next();
+            if (r.chance(0.06)) {
+                p.ops.append(mkop(QStringLiteral("timer"), { 120000 }, {}, salt));
+                continue;
+            }
             switch (r.weighted({ 30, 30, 12, 5, 5, 4, 6, 8 })) {
             case 0:
                 p.ops.append(mkop(QStringLiteral("dl"), { (qint64)r.uniform(2) }, {}, salt));
